@@ -117,8 +117,8 @@ PROPS = {
         "module": "Cuke.Props.C04",
         "namespace": "Cuke.C04",
         "families": [("sched.run", 1000, 40000), ("sched.lazy", 600, 30000)],
-        "segments": {"sched.run": [5, 0, 2, 8]},
-        "segment_names": ['I', 'Q', 'R', 'c04'],
+        "segments": {"sched.run": [5, 0, 2, 1, 8]},
+        "segment_names": ['I', 'Q', 'R', 'K', 'c04'],
         "modelled_not_verified": ["futures crate: FuturesUnordered, mpsc channels, join/select (the plumbing is checked by comparing sent and received event sequences)", "the async executor (hand-polled by the harness) and Instant / thread::sleep (clock readings are environment inputs of the model)", "HashMap iteration order at finish_all (model: any order inside the rule group and the feature group)", "fairness of the environment (every gate is eventually opened, sleeps end, the parser ends) is assumed for termination"],
     },
     "C05": {
